@@ -329,10 +329,11 @@ def fixed3 : Env :=
   { tpls := tpls3, hasPolicy := true, allowedFilters := [b "upper"], allowedFunctions := [b "range", b "shout"],
     spyFilters := [b "forbidden"] }
 
-/-- why the outer check is load-bearing: with both choke points and all propagation facts but WITHOUT the
-    check on the outermost function node, a sandboxed template that defines a macro named like a forbidden
-    function makes `CallFunction` skip its check (macro exemption) and, called as a method on an undefined
-    object, invoke the function.  A hypothetical configuration (neither the pinned nor the repaired tree). -/
+/-- A sandboxed template that defines a macro named like a forbidden function and calls it as a method on an
+    undefined object (`nothing.sfn()`).  Before the repair of `_self.name()` (a visible macro wins over a function
+    of the same name, as in a direct call) this reached the function through `CallFunction`'s macro exemption
+    when the check on the outermost function node was missing; now the macro runs and the function never does
+    (and with the outer check in place the call is refused by name). -/
 def tpls4 : List (Bytes × List Node) :=
   [(b "main", [.include (.str (b "inc")) [] [] false false true]),
    (b "inc", [.macro (b "sfn") [] [] [] [], .print (.mcall (.var (b "nothing")) (b "sfn") [])])]
@@ -342,8 +343,8 @@ def noOuter : Env :=
 
 end C06ex
 
-theorem C06_counterexample_without_outer_check :
-    summary (renderTop C06ex.noOuter (b "main") []) = some (b "sfn", [(.function, b "sfn", true, true)]) ∧
+theorem C06_macro_named_like_forbidden_function :
+    summary (renderTop C06ex.noOuter (b "main") []) = some ([], []) ∧
     errClass (renderTop { C06ex.noOuter with F := .fixed } (b "main") []) = some .security := by
   constructor <;> decide +kernel
 
